@@ -91,11 +91,23 @@ func hashClass(s string, k int) int {
 	return int(h.Sum32() % uint32(k))
 }
 
+// idSpace: the id space a marker belongs to. The class of an id is a function of the id
+// within its SPACE, not of the marker's key prefix: every 8-digit number in the ClientID
+// range is a client id whatever key prefix ("kind") the marker is filed under, so two
+// generators that file the same numbers under different prefixes still draw from one space
+// and must exclude each other.
+func idSpace(kind, id string) string {
+	if v, err := strconv.ParseInt(id, 10, 64); err == nil && v >= 10000000 && v <= 99999999 {
+		return "client"
+	}
+	return kind
+}
+
 // classOf returns (and fixes at first sight) the class of an id of a kind.
 func (a *amp) classOf(kind, id string) int {
 	a.mu.Lock()
 	defer a.mu.Unlock()
-	mk := kind + ":" + id
+	mk := idSpace(kind, id) + ":" + id
 	if c, ok := a.memo[mk]; ok {
 		return c
 	}
@@ -119,7 +131,7 @@ func (a *amp) classOf(kind, id string) int {
 func (a *amp) lookup(kind, id string) (int, bool) {
 	a.mu.Lock()
 	defer a.mu.Unlock()
-	c, ok := a.memo[kind+":"+id]
+	c, ok := a.memo[idSpace(kind, id)+":"+id]
 	return c, ok
 }
 
